@@ -137,9 +137,25 @@ Example C07_empty_label_regression : exists ct f sers c p,
   plot_flattened p = [[[]]; [[98%N]]].
 Proof. exact empty_label_regression. Qed.
 
-Theorem C07_date_format_quote_refuted : exists ct d, data_len d = 1%nat /\ write ct d = Err OtherErr.
-Proof. exact date_quote_refuted. Qed.
-Print Assumptions C07_date_format_quote_refuted.
+(** number formats: kept as given, and never a reason for a writer to fail (was refuted
+    for a double quote on date categories before fix db8d5348) *)
+Theorem C07_number_format :
+  (forall fmt vals, ca_fmt (num_cache fmt vals) = Some (xml_norm fmt)) /\
+  (forall b f fmt cx, write_cat b f (Some fmt) = Ok cx -> cx_kind cx = 1%N -> cx_fmt cx = Some (xml_norm fmt)).
+Proof. exact number_format_kept. Qed.
+Print Assumptions C07_number_format.
+
+Theorem C07_write_total : forall ct ptag pre post f fmt sers D,
+  writer_of ct = Some (WCatPlain, ptag, pre, post) -> forest_depth f = Some D -> sers <> [] ->
+  exists c, write ct (DCat f fmt sers) = Ok c.
+Proof. exact write_cat_total. Qed.
+Print Assumptions C07_write_total.
+
+Example C07_date_format_quote_regression : exists c p s cx vc, write 57 w_date_quote = Ok c /\ ch_plots c = [p] /\
+  p_sers p = [s] /\ first_some kid_cat (s_kids s) = Some cx /\ first_some kid_val (s_kids s) = Some vc /\
+  cx_fmt cx = Some w_quote_fmt /\ ca_fmt vc = Some w_quote_fmt /\
+  plot_cat_labels p = [[52; 51; 56; 51; 49; 46; 48]%N].
+Proof. exact date_quote_regression. Qed.
 
 Theorem C07_foreign_levels_refuted : exists leaf parent : Z * str,
   fst leaf < fst parent /\ flattened_of_levels [[leaf]; [parent]] = [[snd parent; snd leaf]].
